@@ -99,7 +99,7 @@ pub fn run(env: &Env, rep: &Report) {
     rep.set_rule("multi-scene histories in which every scene replays the same object trajectories in the same image region (own clock per scene), random interleaving of predict / skip calls, all four trackers, IoU and Mahalanobis, tie-free by construction (no duplicate detections, distinct appearance per detection). Oracle: for every scene the record sequence of the interleaved run equals that of the projection of the history onto the scene, bit-equal in boxes / epochs / lengths / voting types, under one incrementally built bijection of track ids; plus 'never attached to a track of another scene'. Comparison is cut at the first call whose decision margin (shadow) is below 1e-4. Non-trivial: >= 2 scenes, each with >= 1 continuation inside the compared prefix; distinct = distinct serialized history");
     rep.assume("decision margins come from the f64 shadow of each call (props/shadow.rs); a call with a margin below 1e-4 may legitimately be decided differently in two runs");
     let pool = IsoPool::new(&env.prop, "isolation", std::time::Duration::from_secs(120));
-    let n = env.tier.pick(400, 10_000);
+    let n = env.tier.pick(2_500, 30_000);
     for kind in KINDS {
         par_generated(rep, "isolation", move || history_opts(kind, true, 60, false), n, workers(), iso_check(&pool, rep));
     }
